@@ -454,12 +454,14 @@ def run_scen(sc: dict, out: hlib.RecWriter, src: str = 'scen') -> None:
     for n, i in enumerate(sc['insts']):
         inst = make_instance(uncp(i['name']), i['pos'], i['ang'], i['style'], FIX_TABLES[i['fix']])
         rec, nb, ne = col.collapse(vmf, inst, i['ang'], file, {'template': sc['t'], 'seq': n})
-        done.append((rec['inst'], nb, ne))
+        done.append((rec['inst'], nb, ne, rec['sig']['nested_fixup_renamed']))
     if len(done) > 1:
         # results of repeated collapses differ only by placement: judged against the pristine template at the end
         h1 = tpl_hash(file.vmf)
-        for n, (iabs, nb, ne) in enumerate(done):
-            rec = col.record(iabs, pristine, proj_template(file.vmf), [h0, h1], nb, ne, 'final', {'template': sc['t'], 'seq': n})
+        tainted = any(d[3] for d in done)     # some collapse of the sequence renamed a shared $fixup value
+        for n, (iabs, nb, ne, _) in enumerate(done):
+            rec = col.record(iabs, pristine, proj_template(file.vmf), [h0, h1], nb, ne, 'final',
+                             {'template': sc['t'], 'seq': n, 'nested_fixup_renamed': tainted})
             out.write(rec)
 
 
@@ -535,8 +537,26 @@ def files_of(tmpl: dict) -> VirtualFileSystem:
         v = VMF()
         for e in ents:
             abs_to_real(v, e)
+        # a world brush with shifted / scaled textures: goes through export -> parse -> collapse (validated by
+        # the detailed 'collapse' records; the abstract machine looks at entities only)
+        p = v.make_prism(Vec(0, 0, 0), Vec(16 * int(f), 8, 4), mat=f'F{f}')
+        p.top.uaxis = UVAxis(1, 0, 0, 7, 0.5)
+        p.east.vaxis = UVAxis(0, 0, -1, -2, 1.0)
+        v.add_brush(p.solid)
         data[f'f{f}.vmf'] = v.export(inc_version=False)
-    return VirtualFileSystem(data)
+    return CountingFS(data)
+
+
+class CountingFS(VirtualFileSystem):
+    """Counts how often each file is read (collapse_all caches parsed files by name)."""
+    def __init__(self, data) -> None:
+        super().__init__(data)
+        self.reads: dict = {}
+
+    def read_kv1(self, path, *args, **kw):
+        name = path if isinstance(path, str) else path.path
+        self.reads[name] = self.reads.get(name, 0) + 1
+        return super().read_kv1(path, *args, **kw)
 
 
 class World:
@@ -665,19 +685,23 @@ def replay_edges(edge_file: str, out: hlib.RecWriter, stats: dict) -> None:
             continue
         root, path = paths[key(e['s'])]
         w = state_world(json.loads(root))
-        for pa in path:
-            w.apply(dict(pa))
         a = dict(a)
-        bad = ''
+        bad = badc = ''
+        pre = post = {'map': [], 'todo': [], 'round': 0}
+        hashes = ['', '']
         try:
+            for pa in path:
+                w.apply(dict(pa))
             pre = w.project()
             hashes = w.apply(a)
             post = w.project()
         except OffLattice as exc:
-            bad = str(exc)
-            pre = post = {'map': [], 'todo': [], 'round': 0}
-            hashes = ['', '']
-        out.write({'k': 'step', 'tmpl': w.tmpl, 'pre': pre, 'a': a, 'post': post, 'hash': hashes, 'bad': bad,
+            bad, badc = str(exc), 'proj.lattice'
+        except Diverged as exc:
+            # the real map left the model's path at an earlier edge (reported there); this edge cannot be taken
+            bad, badc = str(exc), 'step.diverged'
+            stats['diverged'] = stats.get('diverged', 0) + 1
+        out.write({'k': 'step', 'tmpl': w.tmpl, 'pre': pre, 'a': a, 'post': post, 'hash': hashes, 'bad': bad, 'badc': badc,
                    'sig': {'kind': 'step', 'action': a['op'], 'src': 'edge', 'diverged': bool(a.get('diverged')),
                            'nested_fixup_renamed': w.renamed_shared},
                    'hist': {'gen': 'step', 'root': json.loads(root), 'path': path + [a]}})
@@ -732,8 +756,9 @@ def run_all(tmpl: dict, ents: list, limit: int, out: hlib.RecWriter, src: str, h
         x['kind'] == 'inst' and x['style'] != 2 for t in tmpl.values() for x in t)
     has_name_fix = any(x['kind'] == 'inst' and x['fixv'] and chr(x['fixv'][0]) not in '@!-.0123456789'
                        for t in tmpl.values() for x in t)
+    loads = sorted([int(name[1:-4]), n] for name, n in fsys.reads.items())
     out.write({'k': 'run', 'nf': len(tmpl), 'tmpl': tmpl, 'ents': ents, 'limit': limit, 'outcome': outcome, 'final': final,
-               'bad': bad, 'sig': {'kind': 'run', 'action': 'collapse_all', 'src': src, 'steps': len(steps),
+               'loads': loads, 'bad': bad, 'sig': {'kind': 'run', 'action': 'collapse_all', 'src': src, 'steps': len(steps),
                                    'nested_fixup_renamed': renamed and has_name_fix},
                'hist': hist})
     for rec in steps:
@@ -982,19 +1007,19 @@ def numeric_mode(out_path: str, rng: random.Random, thorough: bool) -> None:
             for p_old, p_new in zip(s_old.planes, s_new.planes):
                 want = [w + o for w, o in zip(vrot(list(p_old), M), i_pos)]
                 for j in range(3):
-                    close(p_new[j], want[j], 'plane', ctx, 2e-6)
+                    close(p_new[j], want[j], 'plane', ctx)
             for ax_old, ax_new in ((s_old.uaxis, s_new.uaxis), (s_old.vaxis, s_new.vaxis)):
                 d = vrot([ax_old.x, ax_old.y, ax_old.z], M)
                 for j, c in enumerate((ax_new.x, ax_new.y, ax_new.z)):
                     close(c, d[j], 'axis', ctx)
-                close(ax_new.offset, ax_old.offset - sum(d[j] * i_pos[j] for j in range(3)) / ax_old.scale, 'offset', ctx, 5e-5)
+                close(ax_new.offset, ax_old.offset - sum(d[j] * i_pos[j] for j in range(3)) / ax_old.scale, 'offset', ctx)
                 close(ax_new.scale, ax_old.scale, 'scale', ctx)
         E = mmul(fmat(*e_ang), M)
         for ent in back.entities:
             got_pos = [float(x) for x in ent['origin'].split()]
             want = [w + o for w, o in zip(vrot(e_pos, M), i_pos)]
             for j in range(3):
-                close(got_pos[j], want[j], 'origin', ctx, 2e-6)
+                close(got_pos[j], want[j], 'origin', ctx)
             ga = [float(x) for x in ent['angles'].split()]
             if ent['classname'] == 'light_spot':
                 Ep = mmul(fmat(pitch, e_ang[1], e_ang[2]), M)
@@ -1002,17 +1027,17 @@ def numeric_mode(out_path: str, rng: random.Random, thorough: bool) -> None:
                 G2 = fmat(-float(ent['pitch']), ga[1], ga[2])
                 for r_ in range(3):
                     for c_ in range(3):
-                        close(G[r_][c_], Ep[r_][c_], 'spot.angles', ctx, 1e-5)
-                        close(G2[r_][c_], Ep[r_][c_], 'spot.pitch', ctx, 1e-5)
+                        close(G[r_][c_], Ep[r_][c_], 'spot.angles', ctx)
+                        close(G2[r_][c_], Ep[r_][c_], 'spot.pitch', ctx)
                 gd = [float(x) for x in ent['_shadoworiginoffset'].split()]
                 wd = vrot(d_vec, M)
                 for j in range(3):
-                    close(gd[j], wd[j], 'direction', ctx, 2e-6)
+                    close(gd[j], wd[j], 'direction', ctx)
             else:
                 G = fmat(ga[0], ga[1], ga[2])
                 for r_ in range(3):
                     for c_ in range(3):
-                        close(G[r_][c_], E[r_][c_], 'angles', ctx, 1e-5)
+                        close(G[r_][c_], E[r_][c_], 'angles', ctx)
     json.dump({'checks': checks, 'cases': n_cases, 'bad': bad[:50], 'n_bad': len(bad)}, open(out_path, 'w'))
 
 
@@ -1029,12 +1054,23 @@ def regenerate(hist: dict, out: hlib.RecWriter) -> None:
         w = state_world(hist['root'])
         for a in hist['path']:
             a = dict(a)
-            pre = w.project()
-            hashes = w.apply(a)
+            bad = badc = ''
+            pre = post = {'map': [], 'todo': [], 'round': 0}
+            hashes = ['', '']
+            try:
+                pre = w.project()
+                hashes = w.apply(a)
+                post = w.project()
+            except OffLattice as exc:
+                bad, badc = str(exc), 'proj.lattice'
+            except Diverged as exc:
+                bad, badc = str(exc), 'step.diverged'
             if a['op'] in ('roundstart', 'collapse'):
-                out.write({'k': 'step', 'tmpl': w.tmpl, 'pre': pre, 'a': a, 'post': w.project(), 'hash': hashes, 'bad': '',
+                out.write({'k': 'step', 'tmpl': w.tmpl, 'pre': pre, 'a': a, 'post': post, 'hash': hashes, 'bad': bad, 'badc': badc,
                            'sig': {'kind': 'step', 'action': a['op'], 'src': 'replay', 'diverged': bool(a.get('diverged')),
                                    'nested_fixup_renamed': w.renamed_shared}, 'hist': hist})
+            if bad:
+                break
     elif g == 'subst':
         fx = EntityFixup([FixupValue(k, v, i + 1) for i, (k, v) in enumerate(hist['table'])])
         res = fx.substitute(hist['text'], hist['default'])
